@@ -962,7 +962,7 @@ fn refetched_paths_with_path<TCompilationProfile: CompilationProfile>(
                         let client_object_selectable_name = client_object_selectable.name;
                         let new_paths = refetched_paths_with_path(
                             db,
-                            client_object_selectable.target_entity.inner().0,
+                            parent_object_entity_name,
                             selectable_reader_selection_set(
                                 db,
                                 parent_object_entity_name,
